@@ -73,10 +73,23 @@ func (d *filesDir) ReadDir(n int) ([]fs.DirEntry, error) {
 			names = names[:n]
 		}
 		d.n += len(names)
+	} else {
+		if len(names) <= d.n {
+			names = nil
+		} else {
+			names = names[d.n:]
+		}
+		d.n += len(names)
 	}
 	entries := make([]fs.DirEntry, len(names))
 	for i, name := range names {
-		entries[i] = &filesDirEntry{filesFileInfo{name: name}}
+		info := filesFileInfo{name: name}
+		if hasDir[name] {
+			info.mode = fs.ModeDir
+		} else {
+			info.data = d.fsys[name]
+		}
+		entries[i] = &filesDirEntry{info}
 	}
 	return entries, nil
 }
